@@ -211,6 +211,8 @@ func c06Probe(r *e1run) {
 		for _, q := range []string{"_HLS_msn=x", "_HLS_part=1", "_HLS_msn=-1", "_HLS_msn=99999999999999999999999", fmt.Sprintf("_HLS_msn=%d&_HLS_part=x", open), fmt.Sprintf("_HLS_msn=%d&_HLS_part=-1", open),
 			// numbers in forms other than plain decimal digits are not numbers of the protocol (a sign, a fraction, a radix prefix, white space)
 			fmt.Sprintf("_HLS_msn=%%2B%d", open), fmt.Sprintf("_HLS_msn=%d&_HLS_part=%%2B0", open), fmt.Sprintf("_HLS_msn=%d.0", open), fmt.Sprintf("_HLS_msn=0x%x", open),
+			// a part without a sequence number stays unanswerable when other directives or parameters come with it
+			"_HLS_part=0&_HLS_skip=YES", "_HLS_part=1&_HLS_skip=v2", "_HLS_skip=YES&_HLS_part=7&key=value", "_HLS_part=0&_HLS_skip=NO", "_HLS_part=0&user=x",
 			fmt.Sprintf("_HLS_msn=%%20%d", open), fmt.Sprintf("_HLS_msn=%d&_HLS_part=-0", open), fmt.Sprintf("_HLS_msn=%d&_HLS_part=1e0", open-1), fmt.Sprintf("_HLS_msn=%d&_HLS_part=-18446744073709551615", open-1)} {
 			rr, blocked := r.probe(path + "?" + q)
 			r.nProbes++
